@@ -24,6 +24,10 @@ META = dict(
 )
 
 
+def replay(ctx, path):
+    return _mempool.replay(ctx, path)
+
+
 def run(ctx):
     binary = ctx.build_adapter("mempool")
     block_acts = ("mine", "disconnect", "reorg", "tick", "expire")
